@@ -286,6 +286,92 @@ Proof.
   split; [vm_compute; reflexivity|]. split; vm_compute; reflexivity.
 Qed.
 
+(* ---- the timeout sentence: "If some runnable never returns, Run() and Shutdown() still return once the
+   configured shutdown timeout has elapsed" ---- *)
+
+(* PROVED for non-blocking Stops: with a shutdown timeout that can fire (shutdown_may_fire c = true) and every
+   Stop of style StopNonBlocking - whatever the runnables' Run does: returning late, returning errors, NEVER
+   returning (no `good` hypothesis, no sdfirst_ok) - every reachable state after shutdown start in which no step
+   of the implementation is enabled (the timer counts as a step of the implementation) has the shutdown body
+   done, Run() returned (or never called) and no Shutdown() caller inside ... *)
+Theorem C02_timeout_stuck_returned : forall c s,
+  shutdown_may_fire c = true -> (forall i, i < nrun c -> stop_style (spec c i) = StopNonBlocking) ->
+  0 < nrun c -> reachable_sup c s -> sd s <> SdNot -> system_stuck c s ->
+  sd s = SdDone /\ (main s = MNew \/ exists r, main s = MReturned r) /\
+  (forall k cs, find_caller k (callers s) <> Some (OpShutdown, cs)).
+Proof. exact sup_c02_timeout_stuck_returned. Qed.
+
+(* ... and every execution of implementation steps from there is finite (at most mu steps) and ends so. *)
+Theorem C02_timeout_maximal_execution_returns : forall c s ls s',
+  shutdown_may_fire c = true -> (forall i, i < nrun c -> stop_style (spec c i) = StopNonBlocking) ->
+  0 < nrun c -> reachable_sup c s -> sd s <> SdNot ->
+  run (step c) s ls = Some s' -> forallb is_system ls = true ->
+  length ls <= mu c s /\
+  (system_stuck c s' -> sd s' = SdDone /\ (main s' = MNew \/ exists r, main s' = MReturned r) /\
+                        (forall k cs, find_caller k (callers s') <> Some (OpShutdown, cs))).
+Proof. exact sup_c02_timeout_maximal. Qed.
+
+(* non-vacuity, all hypotheses at once: a runnable whose Run NEVER returns, non-blocking Stop; the wait is ended
+   by the timer; Run() and Shutdown() return; the runnable goroutine stays behind *)
+Definition c02_never_spec (ss : sstyle) : rspec :=
+  {| stateable := false; reloadable := false; rsender := false; ssender := false;
+     stop_style := ss; run_exit := ExitNever; held_sub := false |}.
+Definition c02_to_cfg : config :=
+  {| specs := [c02_never_spec StopNonBlocking]; startup_may_fire := false; shutdown_may_fire := true |}.
+Definition c02_to_pre : list label := [LRunEnter; LRunEntered; LLaunch 0; LRunCall 0; LCall 1 OpShutdown; LCallerGo 1].
+Definition c02_to_rest : list label :=
+  [LStopCall 0; LStopRet 0; LSdCancel; LSdTimeout; LReapCtx; LMainShutdown; LMainReturn ResNil; LRet 1 OpShutdown].
+Definition c02_to_mid : state :=
+  match run (step c02_to_cfg) (init c02_to_cfg) c02_to_pre with Some s => s | None => init c02_to_cfg end.
+Definition c02_to_final : state :=
+  match run (step c02_to_cfg) c02_to_mid c02_to_rest with Some s => s | None => init c02_to_cfg end.
+Example C02_ex_timeout_all_hypotheses :
+  shutdown_may_fire c02_to_cfg = true /\
+  (forall i, i < nrun c02_to_cfg -> stop_style (spec c02_to_cfg i) = StopNonBlocking) /\
+  ~ good c02_to_cfg /\ 0 < nrun c02_to_cfg /\
+  reachable_sup c02_to_cfg c02_to_mid /\ sd c02_to_mid <> SdNot /\
+  run (step c02_to_cfg) c02_to_mid c02_to_rest = Some c02_to_final /\ forallb is_system c02_to_rest = true /\
+  reachable_sup c02_to_cfg c02_to_final /\ sd c02_to_final <> SdNot /\ system_stuck c02_to_cfg c02_to_final /\
+  main c02_to_final = MReturned ResNil /\ callers c02_to_final = [] /\ sd_timed_out c02_to_final = true /\
+  rn_at c02_to_final 0 = RnRunning.
+Proof.
+  split; [reflexivity|]. split; [intros i Hi; destruct i; [reflexivity|cbn in Hi; lia]|].
+  split; [intros G; apply (G 0); [cbn; lia|reflexivity]|]. split; [cbn; lia|].
+  split; [exists c02_to_pre; vm_compute; reflexivity|]. split; [vm_compute; discriminate|].
+  split; [vm_compute; reflexivity|]. split; [reflexivity|].
+  split; [exists (c02_to_pre ++ c02_to_rest); vm_compute; reflexivity|]. split; [vm_compute; discriminate|].
+  split; [concrete_stuck|]. repeat split; vm_compute; reflexivity.
+Qed.
+
+(* REFUTED for a blocking Stop (finding never-returning-run-blocks-stop-forever): a runnable whose Run never
+   returns and whose Stop is of the lifecycle style (it blocks until its Run has been invoked and HAS RETURNED,
+   like every bundled runnable).  Shutdown blocks inside that Stop() forever; p.cancel() and the shutdown timer,
+   which exists only after the Stop loop, are never reached: although the timeout can fire
+   (shutdown_may_fire = true) no step of the implementation - no timer either - is enabled, the shutdown body is
+   not done, Run() has not returned and the Shutdown() caller is still inside. *)
+Definition c02_nr_cfg : config :=
+  {| specs := [c02_never_spec StopUntilRunDone]; startup_may_fire := false; shutdown_may_fire := true |}.
+Definition c02_nr_sched : list label :=
+  [LRunEnter; LRunEntered; LLaunch 0; LRunCall 0; LCall 1 OpShutdown; LCallerGo 1; LStopCall 0].
+Definition c02_nr_hung : state :=
+  match run (step c02_nr_cfg) (init c02_nr_cfg) c02_nr_sched with Some s => s | None => init c02_nr_cfg end.
+Theorem C02_timeout_refuted_blocking_stop :
+  shutdown_may_fire c02_nr_cfg = true /\ 0 < nrun c02_nr_cfg /\
+  run (step c02_nr_cfg) (init c02_nr_cfg) c02_nr_sched = Some c02_nr_hung /\
+  sd c02_nr_hung <> SdNot /\ sd_all (aux c02_nr_hung) = false /\ system_stuck c02_nr_cfg c02_nr_hung /\
+  stop_style (spec c02_nr_cfg 0) = StopUntilRunDone /\ run_exit (spec c02_nr_cfg 0) = ExitNever /\
+  sd c02_nr_hung = SdIn 0 /\ rn_at c02_nr_hung 0 = RnRunning /\ main c02_nr_hung = MReap /\
+  step c02_nr_cfg c02_nr_hung LSdTimeout = None /\
+  find_caller 1 (callers c02_nr_hung) = Some (OpShutdown, CPending).
+Proof.
+  split; [reflexivity|]. split; [cbn; lia|]. split; [vm_compute; reflexivity|]. split; [vm_compute; discriminate|].
+  split; [vm_compute; reflexivity|]. split; [concrete_stuck|]. repeat split; vm_compute; reflexivity.
+Qed.
+
+Print Assumptions C02_timeout_stuck_returned.
+Print Assumptions C02_timeout_maximal_execution_returns.
+Print Assumptions C02_timeout_refuted_blocking_stop.
+
 (* non-vacuity: a complete shutdown of c02_cfg; the measure goes from 13 to 0 in 9 implementation
    steps, and with measure 0 no implementation step is enabled *)
 Definition c02_pre : list label := [LRunEnter; LRunEntered; LLaunch 0; LRunCall 0; LCall 1 OpShutdown; LCallerGo 1].
